@@ -711,27 +711,33 @@ class IntervalTier(textgrid_tier.TextgridTier):
         Returns:
             The modified version of the current tier
         """
-        cumulativeAdjustAmount = 0
         newEntryList = []
+        lastSourceEnd = None
+        lastNewEnd = None
         allIntervals = [self.entries, targetTier.entries]
         for sourceInterval, targetInterval in utils.safeZip(allIntervals, True):
-            # sourceInterval.start - lastFromEnd -> was this interval and the
-            # last one adjacent?
-            newStart = sourceInterval.start + cumulativeAdjustAmount
+            # Each interval starts where the last one ended plus the original
+            # gap between the two.  (Adding up a cumulative adjustment instead
+            # lets rounding errors make adjacent intervals overlap.)
+            if lastNewEnd is None:
+                newStart = sourceInterval.start
+            else:
+                newStart = lastNewEnd + (sourceInterval.start - lastSourceEnd)
 
             currIntervalDuration = sourceInterval.end - sourceInterval.start
             if filterFunc is None or filterFunc(sourceInterval.label):
                 newIntervalDuration = targetInterval.end - targetInterval.start
-                cumulativeAdjustAmount += newIntervalDuration - currIntervalDuration
                 newEnd = newStart + newIntervalDuration
             else:
                 newEnd = newStart + currIntervalDuration
 
             newEntryList.append(Interval(newStart, newEnd, sourceInterval.label))
+            lastSourceEnd = sourceInterval.end
+            lastNewEnd = newEnd
 
         newMin = self.minTimestamp
-        cumulativeDifference = newEntryList[-1].end - self.entries[-1].end
-        newMax = self.maxTimestamp + cumulativeDifference
+        # Preserve the gap between the last interval and the end of the tier
+        newMax = newEntryList[-1].end + (self.maxTimestamp - self.entries[-1].end)
 
         return IntervalTier(self.name, newEntryList, newMin, newMax)
 
